@@ -79,7 +79,16 @@ func (pass *Unspec) processSchema(schema *ast.Schema) *ast.Schema {
 		},
 		OnDisjunction: func(visitor *Visitor, schema *ast.Schema, def ast.Type) (ast.Type, error) {
 			for discriminator, typeName := range def.Disjunction.DiscriminatorMapping {
-				def.Disjunction.DiscriminatorMapping[discriminator] = rewriteName(schema.Package, typeName)
+				// the entry designates a branch of the disjunction: its package is the one of that branch
+				pkg := schema.Package
+				for _, branch := range def.Disjunction.Branches {
+					if branch.IsRef() && branch.Ref.ReferredType == typeName {
+						pkg = branch.Ref.ReferredPkg
+						break
+					}
+				}
+
+				def.Disjunction.DiscriminatorMapping[discriminator] = rewriteName(pkg, typeName)
 			}
 
 			var err error
